@@ -38,3 +38,14 @@ impl KeyT {
     #[verifier::external_body]
     pub fn to_vec(&self) -> (r: Vec<u8>) ensures r@ == self@ { unimplemented!() }
 }
+
+// bincode::serialized_size of NodeMeta { size: u64 } is 8 (layout proved on the real bincode by
+// the Kani harness check_layout_node_meta, unit layout)
+pub struct NodeMeta { pub size: u64 }
+impl NodeMeta {
+    #[verifier::external_body]
+    pub fn serialized_size_default() -> (r: Result<u64, VErr>) ensures r.is_ok() ==> r->Ok_0 == 8 { unimplemented!() }
+}
+// Vec<u8>::clone
+#[verifier::external_body]
+pub fn clone_bytes(v: &Vec<u8>) -> (r: Vec<u8>) ensures r@ == v@ { unimplemented!() }
